@@ -144,16 +144,16 @@ Proof.
 Qed.
 
 (* C02 at the level of the text: the blocks of the text spell a derivation of the grammar *)
-Theorem parse_blocks (blocks : list block) (ltoks : list ltok) (items : list item) (e : orx) :
+Theorem parse_blocks_gen (blocks : list block) (ltoks : list ltok) (items : list item) (e0 : expr) :
   concat (map bpieces blocks) = wps ->
   (forall g v, In (BM g v) blocks -> g <> [] /\ exists sp, get_out (lws O g) (outs tr) = Some (sp, v)) ->
   (forall t, In t (t_iter O tr text) -> exists g v, In (BM g v) blocks /\ lo g <= tstart t /\ tend t <= hi g) ->
   (forall g, In (BU g) blocks -> g <> []) -> separated blocks ->
   mapo btok blocks = Ok ltoks -> ltoks = flat_map flat items -> Forall item_ok items ->
-  map (ptok_of O) items = tok_or e ->
-  parse_tokens O T false false text = Ok (tree_or e).
+  blocks <> [] -> bparse (map (ptok_of O) items) = POk e0 ->
+  parse_tokens O T false false text = Ok e0.
 Proof.
-  intros Hcat Hm Hin Hrun Hsep Htoks Hflat Hitems Hgram.
+  intros Hcat Hm Hin Hrun Hsep Htoks Hflat Hitems Hbne Hgram.
   set (segs := flat_map bsegs blocks).
   assert (S_cat : concat (map (@spieces kv) segs) = wps) by (unfold segs; rewrite segs_pieces; exact Hcat).
   assert (S_match : forall g v, In (SM g v) segs -> g <> [] /\ exists sp, get_out (lws O g) (outs tr) = Some (sp, v)).
@@ -184,17 +184,30 @@ Proof.
   unfold parse_tokens, lic_tokenize.
   assert (Hne : text <> []).
   { intro E. assert (Hw : wps = []) by (rewrite E; reflexivity). rewrite <- Hcat in Hw.
-    destruct blocks as [|b bs].
-    - cbn in Htoks. inversion Htoks as [Hl]. rewrite <- Hl in Hflat.
-      destruct items as [|i items']; [cbn in Hgram; symmetry in Hgram; apply (tok_or_nonempty e Hgram)|].
-      cbn in Hflat. destruct i; cbn in Hflat; discriminate.
+    destruct blocks as [|b bs]; [contradiction|].
     - cbn [map concat] in Hw. apply app_eq_nil in Hw as [Hw _]. destruct b as [g v|g]; cbn [bpieces] in Hw.
       + apply (proj1 (Hm g v (or_introl eq_refl))). exact Hw.
       + apply (Hrun g (or_introl eq_refl)). exact Hw. }
   destruct text as [|c0 s0] eqn:Etext; [contradiction|]. rewrite <- Etext in *. cbn [obind].
   rewrite Ebu, Htoks. cbn [obind]. rewrite (drop_blank_starts ltoks Hsw). rewrite Hflat.
-  rewrite (with_grouping_complete O items Hitems). cbn [obind]. rewrite Hgram.
-  rewrite (bparse_complete e). reflexivity.
+  rewrite (with_grouping_complete O items Hitems). cbn [obind]. rewrite Hgram. reflexivity.
+Qed.
+
+Theorem parse_blocks (blocks : list block) (ltoks : list ltok) (items : list item) (e : orx) :
+  concat (map bpieces blocks) = wps ->
+  (forall g v, In (BM g v) blocks -> g <> [] /\ exists sp, get_out (lws O g) (outs tr) = Some (sp, v)) ->
+  (forall t, In t (t_iter O tr text) -> exists g v, In (BM g v) blocks /\ lo g <= tstart t /\ tend t <= hi g) ->
+  (forall g, In (BU g) blocks -> g <> []) -> separated blocks ->
+  mapo btok blocks = Ok ltoks -> ltoks = flat_map flat items -> Forall item_ok items ->
+  map (ptok_of O) items = tok_or e ->
+  parse_tokens O T false false text = Ok (tree_or e).
+Proof.
+  intros Hcat Hm Hin Hrun Hsep Htoks Hflat Hitems Hgram.
+  apply (parse_blocks_gen blocks ltoks items (tree_or e)); try assumption.
+  - intro E. subst blocks. cbn in Htoks. inversion Htoks as [Hl]. rewrite <- Hl in Hflat.
+    destruct items as [|i items']; [cbn in Hgram; symmetry in Hgram; apply (tok_or_nonempty e Hgram)|].
+    cbn in Hflat. destruct i; cbn in Hflat; discriminate.
+  - rewrite Hgram. apply bparse_complete.
 Qed.
 
 End Blocks.
